@@ -36,8 +36,8 @@ from sdc11073.xml_types import xml_structure as xs
 READY = True
 MANIFEST = dict(
     technique='Lean 4 theorems over a model of the declarative XML binding (one write/read pair per descriptor kind, abstract scalar codec, classes = member lists of a generated table): per-kind read-after-write, frame lemmas, class-level round trip by induction over the member list and the nesting depth for every table whose classes satisfy a decidable side condition (kernel-evaluated for the generated table); type-directed differential testing of as_etree_node / from_node against the compiled model',
-    text='Theorems (Properties/C05.lean): read_write_kind (all 8 descriptor kinds incl. nested instances, xsi:type substitution, lists, raw content), write_frame / read_local (members with distinct XML names do not interfere), roundtrip (for every class with okCls and every well-typed instance of any nesting depth: writeCls succeeds and readCls gives the instance back), rewrite_same (writing the read value gives the same XML), roundtrip_with_xsi_type, absent_defaults / empty_element_defaults (an absent attribute / child reads as None, [] or the declared default), generated_classes_ok (kernel evaluation: all 245 classes of the generated table satisfy okCls except msg_types.Mds/Vmd/Channel). The table (Generated/Schema.lean: 245 classes, ~1290 members, xsi:type registries) is regenerated from the running code; on every run the real as_etree_node / mk_node output (names interned, prefixes resolved) is compared with the model writeCls and from_node with readCls for generated instances of every class (presence patterns, list lengths, enum members, xsi:type substitutions, XML-legal strings), plus reads with absent defaulted members and malformed lexical forms.',
-    note='partial: (1) XSD validity is not modelled - the libxml2 validation of generated message documents is reported as supporting evidence only; (2) scalar converters are abstract: their round trip is a hypothesis (Codec.RT inside WT), proved for the real converters in C18; the join/split of list lexical forms is a hypothesis too; (3) C05_full is not claimed: classes outside okCls (msg_types.Mds, Vmd, Channel: ContainerProperty(None) writes into the node itself) and values outside WT (None in a mandatory member, unresolvable xsi:type, empty items in text lists) are excluded; ExtensionLocalValue / any-content is opaque; mex Metadata.from_node (dialect dispatch, takes the soap body) and the body-less Unsubscribe messages are outside the model. Trusted: Lean kernel, translator + harness (interning of names, QName resolution), lxml.',
+    text='Theorems (Properties/C05.lean): read_write_kind (all 8 descriptor kinds incl. nested instances, xsi:type substitution, lists, raw content), write_frame / read_local (members with distinct XML names do not interfere), roundtrip (for every class with okCls and every well-typed instance of any nesting depth: writeCls succeeds and readCls gives the instance back), rewrite_same (writing the read value gives the same XML), roundtrip_with_xsi_type, absent_defaults / empty_element_defaults (an absent attribute / child reads as None, [] or the declared default), generated_classes_ok (kernel evaluation: all 245 classes of the generated table satisfy okCls except msg_types.Mds/Vmd/Channel), public_read_present / public_read_absent (a present - also falsy - value is what the attribute read returns, an absent one reads as the implied value), generated_schema_matches_xsd (kernel evaluation: the class table agrees with the bundled XSD - member order = XSD sequence order, declared value class = XSD element type, lists vs maxOccurs, attribute names, implied values = XSD defaults - for all 204 classes that stand for an XSD type, with the explicitly listed deviations). The table (Generated/Schema.lean: 245 classes, ~1290 members, xsi:type registries) is regenerated from the running code; on every run the real as_etree_node / mk_node output (names interned, prefixes resolved) is compared with the model writeCls and from_node with readCls for generated instances of every class (presence patterns, list lengths, enum members, xsi:type substitutions, XML-legal strings), plus reads with absent defaulted members and malformed lexical forms; the read correspondence also compares the value as read through the public attributes. The bundled XSD is an independent reference: Generated/XsdTable.lean is produced by a plain walk over xsd/*.xsd. Oracle clauses beyond the round trip: public reads (stored value when present, implied when absent; falsy values generated), foreign-writer documents (prefixes declared locally / renamed / default name space) read to the same value, documents for values of the schema value space (required attributes and minOccurs taken from the XSD) are structurally schema valid, elements whose XSD type is more derived than the declared value class are read without loss.',
+    note='partial: (1) XSD validity is not modelled in Lean: structural validity (element / attribute order and presence) of documents rooted in a global element is an oracle clause and the class table is compared with the XSD in the kernel; simple-type facets (patterns, ranges) are supporting evidence only; KNOWN FINDINGS xsd-invalid:unexpected-element:ContainmentTree / ErrorInfo (list members the XSD allows once), accepted deviation: SequenceId / OperatingMode / Relation.Entries are required in the XSD and optional in the class; (2) scalar converters are abstract: their round trip is a hypothesis (Codec.RT inside WT), proved for the real converters in C18; the join/split of list lexical forms is a hypothesis too; (3) C05_full is not claimed: classes outside okCls (msg_types.Mds, Vmd, Channel: ContainerProperty(None) writes into the node itself) and values outside WT (None in a mandatory member, unresolvable xsi:type, empty items in text lists) are excluded; ExtensionLocalValue / any-content is opaque; mex Metadata.from_node (dialect dispatch, takes the soap body) and the body-less Unsubscribe messages are outside the model. Trusted: Lean kernel, translator + harness (interning of names, QName resolution), lxml.',
     ref='5 C05')
 DRIVERS = ['drv_c05']
 RULE = ('one case = one generated instance of one class (presence pattern, list lengths, enum members, xsi:type '
@@ -363,7 +363,7 @@ class Gen:
                 v = (self.qname() if e['conv'] == 'QName' else self.scalar(p._converter)) if want else None
                 v = fz if fz is not None else v
             elif kind == 'attrList':
-                v = [self.scalar(p._converter, True) for _ in range(r.randint(0, 3))] if want else []
+                v = [self.scalar(p._converter, True) for _ in range(max(need, r.randint(0, 3)))] if want else []
             elif kind == 'text':
                 if e['style'] == 'qname':
                     v = self.qname() if want else None
@@ -565,6 +565,25 @@ class Enc:
         out = ['o', str(ci), str(len(self.t.props[ci]))]
         for (name, p), e in zip(self.t.props[ci], self.t.entries[ci]['props']):
             out += self.field(p, e, sh.actual(v, p), v)
+        return out
+
+    def pub(self, v) -> list:
+        """tokens of an instance as read through the public attributes (scalar members via getattr)"""
+        ci = self.t.index[type(v)]
+        out = ['o', str(ci), str(len(self.t.props[ci]))]
+        for (name, p), e in zip(self.t.props[ci], self.t.entries[ci]['props']):
+            x = sh.actual(v, p)
+            if e['kind'] in ('attr', 'text'):
+                x = getattr(v, name)
+                out += ['n'] if x is None else ['a', H(tok(x))]
+            elif e['kind'] == 'sub' and x is not None:
+                out += self.pub(x)
+            elif e['kind'] == 'subList' and x is not None:
+                out += ['l', str(len(x))]
+                for item in x:
+                    out += self.pub(item)
+            else:
+                out += self.field(p, e, x, v)
         return out
 
     def field(self, p, e, x, owner) -> list:
@@ -777,6 +796,10 @@ def schema_lines(enc: Enc, tab: Table) -> list:
     for reg, q, c in tab.types:
         lines.append(f'T {reg} {H(q)} {c}')
     lines.append(f'now {H(tok(NOW))}')
+    for ci in range(len(tab.entries)):
+        for k, ((name, p), e) in enumerate(zip(tab.props[ci], tab.entries[ci]['props'])):
+            if e['kind'] in ('attr', 'text') and p._implied_py_value is not None:
+                lines.append(f'I {ci} {k} {H(tok(p._implied_py_value))}')
     return lines
 
 
@@ -1398,14 +1421,17 @@ def run(ctx):
         re_node = etree.fromstring(etree.tostring(node))
         try:
             back = parse_node(type(obj), re_node)
-            expect = 'ok ' + ' '.join(enc.val(back))
+            expect = 'ok ' + ' '.join(enc.val(back)) + ' | ' + ' '.join(enc.pub(back))
         except Exception:  # noqa: BLE001
             expect = 'err'
         ops.append((f'r {ci} ' + ' '.join(enc.xml(re_node)), expect, case))
     # ---- absent members that have a class-level default, and malformed lexical forms (read side)
     extra_cases(ctx, tab, enc, ops)
     # ---- elements whose XSD type is more derived than the declared value class (no such member on a matching table)
-    typed_element_oracle(ctx, tab)
+    import xsdtable
+    dev = xsd_compare(tab, xsdtable.XsdTable())
+    typed_element_oracle(ctx, tab, dev)
+    directed_documents(ctx, tab, dev)      # nothing to do while the table matches the XSD
     lines += enc.codec_lines()
     n_pre = len(lines)
     lines += [o[0] for o in ops]
@@ -1469,7 +1495,7 @@ def extra_cases(ctx, tab: Table, enc: Enc, ops):
                          f'declared default {canon(p._default_py_value)[:100]}', case)
             try:
                 ops.append((f'w {ci} {enc.nid(clark(qname_for(cls)))} ' + ' '.join(enc.val(obj)), 'ok ' + ' '.join(enc.xml(node)), case))
-                ops.append((f'r {ci} ' + ' '.join(enc.xml(re_node)), 'ok ' + ' '.join(enc.val(back)), case))
+                ops.append((f'r {ci} ' + ' '.join(enc.xml(re_node)), 'ok ' + ' '.join(enc.val(back)) + ' | ' + ' '.join(enc.pub(back)), case))
             except KeyError:
                 pass
         # (2) a lexical form the member's converter may reject: model and implementation must agree on accept / reject
@@ -1497,7 +1523,7 @@ def extra_cases(ctx, tab: Table, enc: Enc, ops):
             case = {'class': tab.keys[ci], 'malformed': [name, lex]}
             try:
                 back = parse_node(cls, re_node)
-                expect = 'ok ' + ' '.join(enc.val(back))
+                expect = 'ok ' + ' '.join(enc.val(back)) + ' | ' + ' '.join(enc.pub(back))
                 ctx.count('malformed:accepted')
             except Exception:  # noqa: BLE001
                 expect = 'err'
@@ -1523,6 +1549,26 @@ def _diff_tokens(a, b):
     return ' '.join(_unh(t) for t in ta[max(0, k - 6):k + 8])
 
 
+def directed_documents(ctx, tab: Table, dev):
+    """for every order / unknown-member deviation from the XSD: full-presence documents of every message that can carry a
+    concrete class inheriting the deviating declaration; the validity and round-trip clauses of the oracle decide"""
+    targets = [tab.clist[tab.keys.index(d[0])] for d in dev if d[2] in ('order', 'unknown-element', 'unknown-attr')]
+    if not targets:
+        return
+    concrete = [c for c in tab.clist if any(issubclass(c, t) for t in targets) and getattr(c, 'NODETYPE', None) is not None]
+    for ci, cls in enumerate(tab.clist):
+        if not (tab.keys[ci].startswith('msg_types.') and isinstance(getattr(cls, 'NODETYPE', None), etree.QName)):
+            continue
+        for k, pref in enumerate(concrete[:12]):
+            g = Gen(tab, ctx.subrng('directed', ci, k), max_depth=3, full=True, prefer=(pref,))
+            try:
+                obj = g.instance(cls)
+            except GenError:
+                continue
+            ctx.count('directed-document')
+            oracle(ctx, tab, obj, {'class': tab.keys[ci], 'directed': sh.class_key(pref), 'sub': [ci, k], 'seed': ctx.seed})
+
+
 def search(ctx):
     """failing-input search: deviation-directed documents first (order / value-type deviations from the XSD), then the
     round-trip oracle over many more generated instances of every class"""
@@ -1530,21 +1576,7 @@ def search(ctx):
     import xsdtable
     dev = xsd_compare(tab, xsdtable.XsdTable())
     typed_element_oracle(ctx, tab, dev)
-    targets = [tab.clist[tab.keys.index(d[0])] for d in dev if d[2] in ('order', 'unknown-element', 'unknown-attr')]
-    if targets:
-        # every concrete class that inherits the deviating declaration, inside every message that can carry it
-        concrete = [c for c in tab.clist if any(issubclass(c, t) for t in targets) and getattr(c, 'NODETYPE', None) is not None]
-        for ci, cls in enumerate(tab.clist):
-            if not (tab.keys[ci].startswith('msg_types.') and isinstance(getattr(cls, 'NODETYPE', None), etree.QName)):
-                continue
-            for k, pref in enumerate(concrete[:12]):
-                g = Gen(tab, ctx.subrng('directed', ci, k), max_depth=3, full=True, prefer=(pref,))
-                try:
-                    obj = g.instance(cls)
-                except GenError:
-                    continue
-                ctx.count('search:directed-document')
-                oracle(ctx, tab, obj, {'class': tab.keys[ci], 'directed': sh.class_key(pref), 'sub': [ci, k], 'seed': ctx.seed})
+    directed_documents(ctx, tab, dev)
     known = {k['signature'] for k in core.load_known() if k.get('property') == 'C05' and k.get('kind') == 'known'}
     if any(f['signature'] not in known for f in ctx.failures):
         return
